@@ -299,9 +299,12 @@ type TreeCase struct {
 	Include []string `json:"include"` // valid patterns
 	Exclude []string `json:"exclude"`
 	Ignore  []string `json:"ignore"` // dawn.toml ignore list (package paths)
+	// a second glob() call in the same BUILD file (one project, several pattern lists)
+	Include2 []string `json:"include2,omitempty"`
+	Exclude2 []string `json:"exclude2,omitempty"`
 }
 
-var fileComps = []string{"a", "b", "ab", "a.b", "a+b", "(a)", "a|b", "$a", "^b", "{a}", "a b", "é", "b.c", "ba", "a$"}
+var fileComps = []string{"a", "b", "a,b", "ab", "a.b", "a+b", "(a)", "a|b", "$a", "^b", "{a}", "a b", "é", "b.c", "ba", "a$"}
 
 func genTree(t *rapid.T) TreeCase {
 	nf := rapid.IntRange(1, 8).Draw(t, "nf")
@@ -362,7 +365,26 @@ func genTree(t *rapid.T) TreeCase {
 		}
 		return out
 	}
-	return TreeCase{Files: files, Include: genList("ninc", 1, 3), Exclude: genList("nexc", 0, 2), Ignore: genList("nign", 0, 2)}
+	tc := TreeCase{Files: files, Include: genList("ninc", 1, 3), Exclude: genList("nexc", 0, 2), Ignore: genList("nign", 0, 2)}
+	switch rapid.IntRange(0, 3).Draw(t, "second") {
+	case 1:
+		tc.Include2, tc.Exclude2 = genList("ninc2", 1, 3), genList("nexc2", 0, 2)
+	case 2:
+		// the same patterns cut differently: every pattern of the first list split at its commas, or all of
+		// them joined by commas into one
+		for _, p := range tc.Include {
+			tc.Include2 = append(tc.Include2, strings.Split(p, ",")...)
+		}
+		if len(tc.Include2) == len(tc.Include) {
+			tc.Include2 = []string{strings.Join(tc.Include, ",")}
+		}
+	case 3:
+		tc.Include2, tc.Exclude2 = tc.Exclude, tc.Include // swapped roles
+		if len(tc.Include2) == 0 {
+			tc.Include2 = []string{"**"}
+		}
+	}
+	return tc
 }
 
 func escapeLit(s string) string {
@@ -443,6 +465,9 @@ func execTree(c TreeCase) (v ev.Verdict) {
 	os.WriteFile(filepath.Join(dir, "dawn.toml"), []byte(cfg), 0o644)
 	build := fmt.Sprintf("vf_capture(\"glob\", glob(%s, exclude=%s))\nvf_capture(\"osglob\", os.glob(%s, exclude=%s))\n",
 		starList(c.Include), starList(c.Exclude), starList(c.Include), starList(c.Exclude))
+	if len(c.Include2) > 0 {
+		build += fmt.Sprintf("vf_capture(\"glob2\", glob(%s, exclude=%s))\n", starList(c.Include2), starList(c.Exclude2))
+	}
 	os.WriteFile(filepath.Join(dir, "BUILD.dawn"), []byte(build), 0o644)
 
 	var mu sync.Mutex
@@ -509,6 +534,21 @@ func execTree(c TreeCase) (v ev.Verdict) {
 	v.NonTrivial = len(c.Include) >= 2 && len(wantGlob) > 0 && len(wantGlob) < len(all)
 	if strings.Join(got, "\x00") != strings.Join(wantGlob, "\x00") {
 		return ev.Failf("glob-builtin", "glob(%q, exclude=%q) over files %q = %q, reference %q", c.Include, c.Exclude, all, got, wantGlob)
+	}
+	if len(c.Include2) > 0 {
+		var want2 []string
+		for _, f := range all {
+			if refAny(c.Include2, f) && !refAny(c.Exclude2, f) {
+				want2 = append(want2, f)
+			}
+		}
+		got2 := append([]string{}, captured["glob2"]...)
+		sort.Strings(got2)
+		sort.Strings(want2)
+		v.Classes = append(v.Classes, "second-glob-call")
+		if strings.Join(got2, "\x00") != strings.Join(want2, "\x00") {
+			return ev.Failf("glob-builtin", "second call in one BUILD file: glob(%q, exclude=%q) over files %q = %q, reference %q (first call: glob(%q, exclude=%q))", c.Include2, c.Exclude2, all, got2, want2, c.Include, c.Exclude)
+		}
 	}
 	// os.glob: files and directories below the working directory, including .dawn
 	var wantOS []string
